@@ -62,26 +62,32 @@ pub open spec fn spec_p2f_int(t: asp::Term) -> Option<IntegerTerm>
 /// every variable of t holds an integer
 pub open spec fn ints_ok(t: asp::Term, s: Asg) -> bool { forall|k: VKey| asp_in_term(t, k) ==> (#[trigger] s[k]) is Int }
 
-/// s2 gives each integer-sorted variable the value s gives the general variable of the same name
-pub open spec fn int_view(s2: Asg, s: Asg) -> bool { forall|n: Seq<char>| #[trigger] s2[(n, Sort::Integer)] == s[(n, Sort::General)] }
+/// s2 gives the integer-sorted variable the value s gives the (general) program variable of the same name, for every variable of t
+pub open spec fn int_view_on(t: asp::Term, s2: Asg, s: Asg) -> bool { forall|k: VKey| #[trigger] asp_in_term(t, k) ==> s2[(k.0, Sort::Integer)] == s[k] }
 
 /// C08 (value of a regular term): a term that p2f_int_term translates has, under an assignment giving its variables integer
 /// values, exactly one value — the integer the translated term denotes — and no value otherwise
 pub proof fn lemma_p2f_int_value(t: asp::Term, it: IntegerTerm, fc: spec_fn(Seq<char>, Sort) -> Val, s: Asg, s2: Asg, i: int)
-    requires spec_p2f_int(t) == Some(it), int_view(s2, s),
+    requires spec_p2f_int(t) == Some(it), int_view_on(t, s2, s),
     ensures in_vals(t, s, Val::Int(i)) == (ints_ok(t, s) && i == eval_int(it, fc, s2)),
     decreases t,
 {
+    assert forall|k: VKey| #[trigger] asp_in_term(t, k) == (match t {
+        asp::Term::PrecomputedTerm(_) => false,
+        asp::Term::Variable(x) => k == asp_var_key(x),
+        asp::Term::UnaryOperation { op, arg } => asp_in_term(*arg, k),
+        asp::Term::BinaryOperation { op, lhs, rhs } => asp_in_term(*lhs, k) || asp_in_term(*rhs, k) }) by {}
     match t {
         asp::Term::Variable(v) => {
             let k = asp_var_key(v);
             assert(asp_in_term(t, k));
-            assert(s2[(v.0@, Sort::Integer)] == s[k]);
+            assert(s2[(k.0, Sort::Integer)] == s[k]);
             if s[k] == Val::Int(i) { assert forall|k2: VKey| asp_in_term(t, k2) implies (#[trigger] s[k2]) is Int by {} }
         }
         asp::Term::PrecomputedTerm(p) => {}
         asp::Term::UnaryOperation { op, arg } => {
             let a = spec_p2f_int(*arg)->Some_0;
+            assert(int_view_on(*arg, s2, s)) by { assert forall|k: VKey| #[trigger] asp_in_term(*arg, k) implies s2[(k.0, Sort::Integer)] == s[k] by { assert(asp_in_term(t, k)); } }
             assert forall|j: int| #[trigger] tr1(j) implies in_vals(*arg, s, Val::Int(j)) == (ints_ok(*arg, s) && j == eval_int(a, fc, s2)) by {
                 lemma_p2f_int_value(*arg, a, fc, s, s2, j);
             }
@@ -91,6 +97,8 @@ pub proof fn lemma_p2f_int_value(t: asp::Term, it: IntegerTerm, fc: spec_fn(Seq<
         asp::Term::BinaryOperation { op, lhs, rhs } => {
             let a = spec_p2f_int(*lhs)->Some_0;
             let b = spec_p2f_int(*rhs)->Some_0;
+            assert(int_view_on(*lhs, s2, s)) by { assert forall|k: VKey| #[trigger] asp_in_term(*lhs, k) implies s2[(k.0, Sort::Integer)] == s[k] by { assert(asp_in_term(t, k)); } }
+            assert(int_view_on(*rhs, s2, s)) by { assert forall|k: VKey| #[trigger] asp_in_term(*rhs, k) implies s2[(k.0, Sort::Integer)] == s[k] by { assert(asp_in_term(t, k)); } }
             assert forall|x: int, y: int| #[trigger] tr2(x, y) implies
                 in_vals(*lhs, s, Val::Int(x)) == (ints_ok(*lhs, s) && x == eval_int(a, fc, s2))
                 && in_vals(*rhs, s, Val::Int(y)) == (ints_ok(*rhs, s) && y == eval_int(b, fc, s2)) by {
